@@ -719,7 +719,10 @@ class RZILTransformer(Transformer):
         op_type = AssignmentType(items[1])
         if isinstance(items[2], Assignment):
             # a = b = 0 case
-            src = items[2].src
+            # The value is the one of b after the assignment (C11 6.5.16p3). It is sequenced first.
+            # Registers are read before the instruction, so only a variable can be read again.
+            inner: Assignment = items[2]
+            src = inner.dest if isinstance(inner.dest, LocalVar) else inner.src
         else:
             src: Pure = items[2]
         name = f"op_{op_type.name}"
